@@ -4,8 +4,8 @@
    PREVIOUS sample (repo_patches/C14-negative-first-sample.diff); the unchanged tree never checks the
    sign of the trace's first sample and the check reports that as a violation. *)
 From Coq Require Import Reals List Bool ZArith Lra.
-From AltModel Require Import Num Interp Resist Braking TrainStep.
-From AltProofs Require Import NumR ResistP TrainStepP.
+From AltModel Require Import Num Interp Powertrain Loco Consist Resist Braking TrainStep TrainFull.
+From AltProofs Require Import NumR ResistP TrainStepP ConsistP TrainFullP.
 Import ListNotations.
 Open Scope R_scope.
 
@@ -68,3 +68,27 @@ Theorem C14_ramp_uses_previous_dt : forall (e : Env (F:=R)) times speeds cl1 cl2
     k_dt (ts_k (bump_i st1)) = nthR times i - nthR times (i - 1) /\
     k_dt (ts_k st2) = nthR times (S i) - nthR times i.
 Proof. exact ss_ramp_uses_previous_dt. Qed.
+
+(* ---- the WHOLE SetSpeedTrainSim::walk() (coq/model/TrainFull.v ss_full_walk: the loop over the trace with the
+   consist inside every step; tied to the real walk() end to end in check C11, kind ss_full_walk): an
+   accepted walk is a run of exactly (number of samples - starting counter) whole steps - it consumes the
+   whole trace, no sample skipped or repeated; each of those steps contains an accepted train-level step
+   (C14_step_row above) under the limits the consist itself published ---- *)
+Theorem C14_whole_walk_consumes_trace : forall (e : Env (F:=R)) times speeds fmax fuel x x',
+  ss_full_walk fuel e times speeds fmax x = Ok x' ->
+  exists n, (n <= fuel)%nat /\ ss_full_run n e times speeds fmax x = Ok x' /\
+    (length times <= k_i (ts_k (fst (fst x'))))%nat /\
+    k_i (ts_k (fst (fst x'))) = (k_i (ts_k (fst (fst x))) + n)%nat /\
+    (1 <= n -> k_i (ts_k (fst (fst x'))) = length times)%nat.
+Proof. exact ss_full_walk_is_run. Qed.
+
+Theorem C14_whole_step_contains_row : forall (e : Env (F:=R)) times speeds fmax st cache (c c' : ConsistR) st'' cache',
+  ss_full_step e times speeds fmax ((st, cache), c) = Ok ((st'', cache'), c') ->
+  exists st' c2 t_i t_p,
+    nth_error times (k_i (ts_k st)) = Some t_i /\ nth_error times (pred (k_i (ts_k st))) = Some t_p /\
+    consist_set_cur_pwr_max_out (consist_set_pwr_aux c true) (t_i - t_p) = Ok c2 /\
+    ss_solve_step e times speeds (cl_of c2 fmax) st cache = Ok (st', cache') /\
+    st'' = bump_i st' /\
+    consist_solve c2 (w_pwr_whl_out (ts_w st')) (t_i - t_p) true = Ok c' /\
+    consist_sim_solve_step c (w_pwr_whl_out (ts_w st')) (t_i - t_p) = Ok c'.
+Proof. exact ss_full_step_decomposes. Qed.
